@@ -1,17 +1,487 @@
-//! module `sector` — streams `sector.*` (not built yet).
+//! module `sector` (serves C05, C18) — the Sector and Arc primitives (geometry only: `points()`,
+//! `contains()`, `bounding_box()`; styled sectors / arcs are not covered here).
+//!
+//! Streams (op lines; every result line is compared with the Lean model `EG.Model.Sector`):
+//!   sector.points x y d start_mdeg sweep_mdeg tag lx ly rx ry
+//!       -> ps=<tag,lx,ly,rx,ry as the hook reports them in THIS build> bb=<bounding box>
+//!          pts=<Sector::points() list> in=<Sector::contains() bitmap, row-major, over the bounding
+//!          box grown by a 2 px margin>
+//!   sector.arc    x y d start_mdeg sweep_mdeg tag lx ly rx ry
+//!       -> ps=<..> bb=<bounding box> pts=<Arc::points() list>
+//!
+//! Angles are milli-degrees, converted with `Angle::from_degrees(m as f32 / 1000.0)` exactly like
+//! `shapes::mdeg`. Trigonometry (micromath f32, or the fixed-point sine table with feature
+//! `fixed_point`) is NOT modelled: `tag lx ly rx ry` is what the real
+//! `PlaneSector::new(start, sweep)` computed — operation tag (0 intersection, 1 union, 2 entire
+//! plane), normal vector of the left half plane, normal vector of the right half plane — obtained
+//! through `embedded_graphics::verif_hooks::plane_sector` by the *generator* and written into the op
+//! line, so the model works on the same plane sector as the code. `execute` asks the hook again and
+//! prints the answer (`ps=`); the model echoes the op line's values, so an op line that was generated
+//! by a different feature build shows up as a disagreement in `ps=` instead of a confusing one in
+//! `pts=`. Trusted base: f32 / fixed-point trigonometry — validated numerically by the angular
+//! oracle below, in both feature builds.
+//!
+//! Oracle (the property texts as predicates on the real results). Lean statements mirrored:
+//!   C05 `sector_points_eq_filter_contains`, `sector_contains_inside_bbox`, `sector_points_nodup`,
+//!       `sector_points_row_major`, `sector_points_inside_bbox`;
+//!   C18 `sector_full_eq_circle`, `arc_full_eq_ring`, `sector_subset_circle`, `arc_subset_circle`,
+//!       `AngularClaim` ([V]: validated here).
+//!
+//! Metric of the angular claim (C18: "Arc and sector points lie in the circle and inside the swept
+//! angle up to 1.5 pixels at its radial boundaries, and every circle point further than that inside
+//! the sweep is included (diameters up to 128)"), fixed once:
+//!   * doubled coordinates: `delta = 2 p - c2`, `c2 = 2 top_left + (d - 1, d - 1)` is the vector from
+//!     the centre of the circle to the centre of pixel `p` in half-pixel units (exact integers);
+//!   * the ray of angle `t` has direction `(cos t, sin t)` in screen coordinates (x to the right, y
+//!     DOWN): 0 degrees is 3 o'clock and a positive sweep turns clockwise on the screen. This is the
+//!     orientation the code implements (`plane_sector.rs` tests: `PlaneSector::new(0°, 90°)` contains
+//!     `(10, 10)` and `(0, 10)`); the property text leaves it open;
+//!   * the swept angle is `[lo, lo + w]` with `lo = min(start, start + sweep)`, `w = |sweep|`, taken
+//!     from the milli-degree integers exactly (f64); `w >= 360` degrees is the whole plane; a pixel is
+//!     *inside the sweep* iff `(atan2(dy, dx) - lo) mod 360 <= w` (the centre itself counts as on
+//!     both rays);
+//!   * distance of a pixel centre to a boundary ray (not the line: the ray starting at the centre):
+//!     `|delta x u|` if `delta . u >= 0`, else `|delta|`; in half-pixel units, so 1.5 px = 3.0;
+//!   * claim A: every point of `points()` is a circle point (arc: a ring point) that is inside the
+//!     sweep or within 1.5 px of one of the two boundary rays;
+//!   * claim B: every circle (arc: ring) point inside the sweep and further than 1.5 px from both
+//!     boundary rays is in `points()`.
+//!   * trigonometric accuracy (the hypothesis `NormalWithin n N eps`, `eps <= 16`, of the Lean theorems
+//!     `sector_distance_error` / `sector_angular_partial`): each integer normal is within 16 (of 1024),
+//!     componentwise, of the exact `1024 (-sin t, cos t)`; `*:normal-eps-max-milli` reports the
+//!     largest deviation seen (1/1000 units).
+//!   `sector:tol-needed-milli-px` in the distribution is the largest distance (in 1/1000 px) from
+//!   the nearer boundary ray of any pixel whose membership differs from "inside the sweep" — the
+//!   smallest tolerance with which the run would still pass.
 use crate::common::*;
+use embedded_graphics::{
+    geometry::Angle,
+    prelude::*,
+    primitives::{Arc, Circle, ContainsPoint, OffsetOutline, Sector},
+    verif_hooks,
+};
 
 pub struct M;
+
+/// the tolerance of the property text: 1.5 px = 3.0 half-pixel units
+const TOL_2X: f64 = 3.0;
+
+fn mdeg(m: i32) -> Angle {
+    Angle::from_degrees(m as f32 / 1000.0)
+}
+
+fn hook(start: i32, sweep: i32) -> (u8, [i32; 2], [i32; 2]) {
+    verif_hooks::plane_sector(mdeg(start), mdeg(sweep))
+}
+
+fn op_line(stream: &str, x: i64, y: i64, d: i64, start: i64, sweep: i64) -> String {
+    let (tag, l, r) = hook(start as i32, sweep as i32);
+    format!("sector.{} {} {} {} {} {} {} {} {} {} {}", stream, x, y, d, start, sweep, tag, l[0], l[1], r[0], r[1])
+}
+
+/// Exact (f64) geometry of the swept angle in doubled coordinates.
+struct Sweep {
+    lo_deg: f64,
+    w_deg: f64,
+    u0: (f64, f64), // direction of the ray at `start`
+    u1: (f64, f64), // direction of the ray at `start + sweep`
+}
+impl Sweep {
+    fn new(start_mdeg: i32, sweep_mdeg: i32) -> Self {
+        let s = start_mdeg as f64 / 1000.0;
+        let e = (start_mdeg as f64 + sweep_mdeg as f64) / 1000.0;
+        let dir = |deg: f64| {
+            let r = deg.to_radians();
+            (r.cos(), r.sin())
+        };
+        Sweep { lo_deg: s.min(e), w_deg: (sweep_mdeg as f64 / 1000.0).abs(), u0: dir(s), u1: dir(e) }
+    }
+    fn full(&self) -> bool {
+        self.w_deg >= 360.0
+    }
+    fn inside(&self, dx: i64, dy: i64) -> bool {
+        if self.full() || (dx == 0 && dy == 0) {
+            return true;
+        }
+        let a = (dy as f64).atan2(dx as f64).to_degrees();
+        (a - self.lo_deg).rem_euclid(360.0) <= self.w_deg
+    }
+    fn ray_dist(u: (f64, f64), dx: i64, dy: i64) -> f64 {
+        let (x, y) = (dx as f64, dy as f64);
+        if x * u.0 + y * u.1 >= 0.0 {
+            (x * u.1 - y * u.0).abs()
+        } else {
+            (x * x + y * y).sqrt()
+        }
+    }
+    /// distance (half-pixel units) to the nearer boundary ray
+    fn boundary_dist(&self, dx: i64, dy: i64) -> f64 {
+        Self::ray_dist(self.u0, dx, dy).min(Self::ray_dist(self.u1, dx, dy))
+    }
+}
+
+fn note_max(ctx: &mut Ctx, key: &str, v: u64) {
+    let e = ctx.counters.entry(key.to_string()).or_insert(0);
+    if v > *e {
+        *e = v;
+    }
+}
+
+/// The angular claim (A and B of the module header) for one shape. `base` = the circle (sector) or
+/// ring (arc) points, `pts` = the shape's `points()`; both row-major. `kind` = "sector" / "arc".
+#[allow(clippy::too_many_arguments)]
+fn angular_oracle(
+    ctx: &mut Ctx,
+    kind: &str,
+    tl: Point,
+    d: u32,
+    start: i32,
+    sweep: i32,
+    ps: (u8, [i32; 2], [i32; 2]),
+    base: &[Point],
+    pts: &[Point],
+) {
+    let sw = Sweep::new(start, sweep);
+    let c2x = 2 * tl.x as i64 + d as i64 - 1;
+    let c2y = 2 * tl.y as i64 + d as i64 - 1;
+    let set: std::collections::HashSet<(i32, i32)> = pts.iter().map(|p| (p.x, p.y)).collect();
+    let mut outside: Option<(Point, f64)> = None; // claim A
+    let mut missing: Option<(Point, f64)> = None; // claim B
+    let mut needed = 0.0f64;
+    for p in base {
+        let (dx, dy) = (2 * p.x as i64 - c2x, 2 * p.y as i64 - c2y);
+        let member = set.contains(&(p.x, p.y));
+        let inside = sw.inside(dx, dy);
+        if member == inside {
+            continue;
+        }
+        let bd = sw.boundary_dist(dx, dy);
+        if bd > needed {
+            needed = bd;
+        }
+        if bd > TOL_2X {
+            if member {
+                if outside.map_or(true, |(_, b)| bd > b) {
+                    outside = Some((*p, bd));
+                }
+            } else if missing.map_or(true, |(_, b)| bd > b) {
+                missing = Some((*p, bd));
+            }
+        }
+    }
+    // Mechanism classes. A sweep so small that the two half planes get PARALLEL integer normal
+    // vectors (always for sweep 0; below ~0.06 degrees in the f32 build, below 1 degree in the
+    // fixed_point build, which rounds angles to whole degrees) made `Operation::Intersection` of
+    // `distance <= 0` and `distance >= 0` the whole LINE through the centre: the points on the ray
+    // OPPOSITE to the sweep were accepted too (found by this oracle, witness in corpus/C18.ops,
+    // repaired in /repo by the bisector test of `PlaneSector::contains`). That mechanism keeps its
+    // own key; it is recognised by the plane sector the code computed (intersection tag, normals
+    // parallel and equally directed) and by the offending point lying on that line.
+    let (l, r) = (ps.1, ps.2);
+    let degenerate_line = ps.0 == 0
+        && l[0] as i64 * r[1] as i64 - l[1] as i64 * r[0] as i64 == 0
+        && l[0] as i64 * r[0] as i64 + l[1] as i64 * r[1] as i64 > 0;
+    let on_line = |p: Point| (2 * p.x as i64 - c2x) * l[0] as i64 + (2 * p.y as i64 - c2y) * l[1] as i64 == 0;
+    let class_a = if degenerate_line && outside.map_or(false, |(p, _)| on_line(p)) {
+        format!("C18:{}-degenerate-sweep-accepts-opposite-ray", kind)
+    } else {
+        format!("C18:{}-point-outside-sweep", kind)
+    };
+    note_max(
+        ctx,
+        &format!("{}:tol-needed-milli-px{}", kind, if degenerate_line { "(degenerate sweep)" } else { "" }),
+        (needed * 500.0).ceil() as u64,
+    );
+    // The hypothesis of the Lean theorems `sector_distance_error` / `sector_angular_partial`
+    // (`NormalWithin n N eps`, eps <= 16): the integer normals the code computed are within `eps`,
+    // componentwise, of the exact scaled normals `1024 (-sin t, cos t)` of the two boundary rays
+    // (right half plane: the lower end of the sweep, left half plane: the upper end).
+    if ps.0 != 2 {
+        let exact = |deg: f64| {
+            let t = deg.to_radians();
+            (-1024.0 * t.sin(), 1024.0 * t.cos())
+        };
+        let (nr, nl) = (exact(sw.lo_deg), exact(sw.lo_deg + sw.w_deg));
+        let eps = (l[0] as f64 - nl.0)
+            .abs()
+            .max((l[1] as f64 - nl.1).abs())
+            .max((r[0] as f64 - nr.0).abs())
+            .max((r[1] as f64 - nr.1).abs());
+        note_max(ctx, &format!("{}:normal-eps-max-milli", kind), (eps * 1000.0).ceil() as u64);
+        ctx.expect(eps <= 16.0, &format!("C18:{}-normal-vector-inaccurate", kind), || {
+            format!("normals {:?} {:?} deviate by {:.3} (of 1024) from the exact ones", l, r, eps)
+        });
+    }
+    ctx.expect(outside.is_none(), &class_a, || {
+        let (p, b) = outside.unwrap();
+        format!("{:?} is {:.3} px from the nearer boundary ray, outside the sweep", p, b / 2.0)
+    });
+    ctx.expect(missing.is_none(), &format!("C18:{}-misses-point-inside-sweep", kind), || {
+        let (p, b) = missing.unwrap();
+        format!("{:?} is {:.3} px inside the sweep but not a point", p, b / 2.0)
+    });
+}
+
+struct Args {
+    tl: Point,
+    d: u32,
+    start: i32,
+    sweep: i32,
+    ps_op: (u8, [i32; 2], [i32; 2]),
+}
+fn parse_args(t: &mut Toks) -> Args {
+    let tl = t.point();
+    let d = t.u32();
+    let start = t.i32();
+    let sweep = t.i32();
+    let tag = t.u32() as u8;
+    let l = [t.i32(), t.i32()];
+    let r = [t.i32(), t.i32()];
+    Args { tl, d, start, sweep, ps_op: (tag, l, r) }
+}
+fn fmt_ps(ps: (u8, [i32; 2], [i32; 2])) -> String {
+    format!("{},{},{},{},{}", ps.0, ps.1[0], ps.1[1], ps.2[0], ps.2[1])
+}
+
+fn count_shape(ctx: &mut Ctx, kind: &str, a: &Args, ps: (u8, [i32; 2], [i32; 2])) {
+    ctx.count(kind);
+    ctx.count(&format!(
+        "{}:{}",
+        kind,
+        match ps.0 {
+            0 => "intersection",
+            1 => "union",
+            _ => "entire-plane",
+        }
+    ));
+    ctx.count(&format!(
+        "{}:d{}",
+        kind,
+        match a.d {
+            0..=4 => "<=4",
+            5..=24 => "<=24",
+            25..=64 => "<=64",
+            _ => ">64",
+        }
+    ));
+    if a.sweep < 0 {
+        ctx.count(&format!("{}:negative-sweep", kind));
+    }
+    if a.start % 1000 != 0 || a.sweep % 1000 != 0 {
+        ctx.count(&format!("{}:fractional-angle", kind));
+    }
+    if ps.0 == 0 && ps.1[0] as i64 * ps.2[1] as i64 == ps.1[1] as i64 * ps.2[0] as i64 {
+        ctx.count(&format!("{}:intersection-parallel-normals", kind));
+    }
+    if ps != a.ps_op {
+        // the op line was generated under a different trigonometry (other feature build)
+        ctx.count(&format!("{}:op-line-plane-sector-stale", kind));
+    }
+}
 
 impl Module for M {
     fn name(&self) -> &'static str {
         "sector"
     }
     fn rule(&self) -> &'static str {
-        "not built yet"
+        "sector.points / sector.arc: quick = diameters {0,1,2,3,4,5,8,13,20} x start angles on a 30-degree grid x sweeps \
+         {-400,-360,-270,-180,-135,-90,-45,-1,0,1,45,90,135,180,270,359,360,400} degrees x 2 positions, plus larger diameters \
+         (31,64,127,128) on a coarser angle grid and seeded random fractional angles (milli-degrees) at random positions; thorough = \
+         1-degree grids (all starts x 12 sweeps and all sweeps -400..=400 x 4 starts for d = 11, 40; reduced for d = 127, 128) and 5000 \
+         random fractional angle pairs with diameters up to 128. Non-trivial: diameter >= 1; distinct = distinct op text."
     }
-    fn generate(&self, _pid: &str, _tier: Tier, _rng: &mut Rng, _emit: &mut dyn FnMut(String)) {}
-    fn execute(&self, op: &str, _ctx: &mut Ctx) -> String {
-        panic!("unknown op {}", op)
+
+    fn generate(&self, pid: &str, tier: Tier, rng: &mut Rng, emit: &mut dyn FnMut(String)) {
+        if pid != "C05" && pid != "C18" {
+            return;
+        }
+        let quick = tier == Tier::Quick;
+        let pos: [(i64, i64); 2] = [(0, 0), (-37, 12)];
+        let sweeps: [i64; 18] = [-400, -360, -270, -180, -135, -90, -45, -1, 0, 1, 45, 90, 135, 180, 270, 359, 360, 400];
+        let both = |emit: &mut dyn FnMut(String), x: i64, y: i64, d: i64, s: i64, w: i64| {
+            emit(op_line("points", x, y, d, s, w));
+            emit(op_line("arc", x, y, d, s, w));
+        };
+        // exhaustive small scope
+        for d in [0i64, 1, 2, 3, 4, 5, 8, 13, 20] {
+            for s in (0..360).step_by(30) {
+                for w in sweeps {
+                    for (x, y) in pos {
+                        both(emit, x, y, d, s * 1000, w * 1000);
+                    }
+                }
+            }
+        }
+        // a few fractional sweeps around the special values, small diameters
+        for d in [5i64, 9, 20] {
+            for s in [0i64, 500, 29_999, 45_000, 90_001, 179_999, 180_000, 180_001, 270_000, 359_500, -45_000, 725_250] {
+                for w in [1i64, 30, 499, 500, 501, 999, 89_999, 179_999, 180_001, 359_499, 359_999, 360_001, -1, -500, -179_999, -180_001, -359_999] {
+                    both(emit, 3, -2, d, s, w);
+                }
+            }
+        }
+        // larger diameters, coarser grid (the angular claim at scale)
+        for d in [31i64, 64, 127, 128] {
+            for s in (0..360).step_by(if quick { 45 } else { 15 }) {
+                for w in [-270i64, -100, -1, 0, 1, 30, 90, 179, 180, 181, 300, 359] {
+                    if quick && d >= 127 && (s / 45 + w).rem_euclid(3) != 0 {
+                        continue;
+                    }
+                    both(emit, -64, -64, d, s * 1000 + 7000, w * 1000);
+                }
+            }
+        }
+        // random fractional angles
+        let n = if quick { 400 } else { 5000 };
+        for k in 0..n {
+            let scale = *rng.pick(&[8i64, 64, 1024, 1 << 16]);
+            let x = rng.range(-scale, scale);
+            let y = rng.range(-scale, scale);
+            let d = if quick {
+                rng.range(0, 40)
+            } else {
+                match rng.below(10) {
+                    0..=4 => rng.range(0, 32),
+                    5..=7 => rng.range(33, 80),
+                    _ => rng.range(81, 128),
+                }
+            };
+            let s = rng.range(-360_000, 720_000);
+            let w = match rng.below(8) {
+                0 => rng.range(-2_000, 2_000),          // tiny sweeps
+                1 => 180_000 + rng.range(-1_500, 1_500), // around the intersection / union switch
+                2 => -180_000 + rng.range(-1_500, 1_500),
+                3 => *rng.pick(&[360_000i64, -360_000]) + rng.range(-1_500, 1_500),
+                _ => rng.range(-450_000, 450_000),
+            };
+            emit(op_line(if k % 2 == 0 { "points" } else { "arc" }, x, y, d, s, w));
+        }
+        if !quick {
+            // 1-degree grids
+            for d in [11i64, 40] {
+                for s in 0..360 {
+                    for w in [-359i64, -200, -90, -1, 1, 37, 90, 179, 180, 181, 270, 359] {
+                        both(emit, -20, -20, d, s * 1000, w * 1000);
+                    }
+                }
+                for s in [0i64, 45, 77, 200] {
+                    for w in -400..=400 {
+                        both(emit, -20, -20, d, s * 1000, w * 1000);
+                    }
+                }
+            }
+            for s in 0..360 {
+                both(emit, -64, -64, 128, s * 1000, 90_000);
+                both(emit, -63, -63, 127, s * 1000, -200_000);
+            }
+            for w in -400..=400 {
+                both(emit, -64, -64, 128, 30_000, w * 1000);
+            }
+        }
+    }
+
+    fn execute(&self, op: &str, ctx: &mut Ctx) -> String {
+        let mut t = Toks::new(op);
+        match t.str() {
+            "sector.points" => {
+                let a = parse_args(&mut t);
+                let (tl, d) = (a.tl, a.d);
+                let ps = hook(a.start, a.sweep);
+                count_shape(ctx, "sector", &a, ps);
+                if d >= 1 {
+                    ctx.nontrivial(op);
+                }
+                let s = Sector::new(tl, d, mdeg(a.start), mdeg(a.sweep));
+                let c = Circle::new(tl, d);
+                let bb = s.bounding_box();
+                let pts: Vec<Point> = s.points().collect();
+                let m = 2i32;
+                let (x0, y0) = (tl.x - m, tl.y - m);
+                let (x1, y1) = (tl.x + d as i32 + m, tl.y + d as i32 + m);
+                let mut bits = String::new();
+                let mut accepted: Vec<Point> = Vec::new();
+                for y in y0..y1 {
+                    for x in x0..x1 {
+                        let p = Point::new(x, y);
+                        let inside = s.contains(p);
+                        bits.push(if inside { '1' } else { '0' });
+                        if inside {
+                            accepted.push(p);
+                        }
+                    }
+                }
+                // C05: points() == the points contains() accepts (probed on the box + margin), each
+                // once, row-major, inside bounding_box(); contains() false outside the box.
+                ctx.expect(pts == accepted, "C05:sector-points-ne-contains", || {
+                    format!("points {} vs contains {}", fmt_pts(pts.iter().copied()), fmt_pts(accepted.iter().copied()))
+                });
+                let out = accepted.iter().find(|p| !bb.contains(**p)).copied();
+                ctx.expect(out.is_none(), "C05:sector-contains-outside-bbox", || format!("{:?}", out));
+                ctx.expect(pts.iter().all(|p| bb.contains(*p)), "C05:sector-points-outside-bbox", || "points() outside bounding box".into());
+                ctx.expect(
+                    pts.windows(2).all(|w| (w[0].y, w[0].x) < (w[1].y, w[1].x)),
+                    "C05:sector-points-not-row-major-once",
+                    || fmt_pts(pts.iter().copied()),
+                );
+                let far = [
+                    Point::new(tl.x - 1000, tl.y + d as i32 / 2),
+                    Point::new(tl.x + d as i32 + 1000, tl.y + d as i32 / 2),
+                    Point::new(tl.x + d as i32 / 2, tl.y - 1000),
+                    Point::new(tl.x + d as i32 / 2, tl.y + d as i32 + 1000),
+                    Point::new(tl.x + d as i32 + 1000, tl.y + d as i32 + 1000),
+                    Point::new(tl.x - 1000, tl.y - 1000),
+                ];
+                ctx.expect(far.iter().all(|p| !s.contains(*p)), "C05:sector-contains-outside-bbox", || "far probe accepted".into());
+                // C18
+                let circle_pts: Vec<Point> = c.points().collect();
+                if a.sweep.abs() >= 360_000 {
+                    ctx.expect(pts == circle_pts, "C18:sector-full-sweep-ne-circle", || {
+                        format!("{} sector points, {} circle points", pts.len(), circle_pts.len())
+                    });
+                }
+                let stray = pts.iter().find(|p| !c.contains(**p)).copied();
+                ctx.expect(stray.is_none(), "C18:sector-point-outside-circle", || format!("{:?}", stray));
+                if d <= 128 {
+                    angular_oracle(ctx, "sector", tl, d, a.start, a.sweep, ps, &circle_pts, &pts);
+                }
+                format!("ps={} bb={} pts={} in={}", fmt_ps(ps), fmt_rect(&bb), fmt_pts(pts), bits)
+            }
+            "sector.arc" => {
+                let a = parse_args(&mut t);
+                let (tl, d) = (a.tl, a.d);
+                let ps = hook(a.start, a.sweep);
+                count_shape(ctx, "arc", &a, ps);
+                if d >= 1 {
+                    ctx.nontrivial(op);
+                }
+                let arc = Arc::new(tl, d, mdeg(a.start), mdeg(a.sweep));
+                let c = Circle::new(tl, d);
+                let inner = c.offset(-1);
+                let bb = arc.bounding_box();
+                let pts: Vec<Point> = arc.points().collect();
+                // the circle's one-pixel inside ring: circle points that are not in circle.offset(-1)
+                let ring: Vec<Point> = c.points().filter(|p| !inner.contains(*p)).collect();
+                ctx.expect(bb == c.bounding_box(), "C18:arc-bbox-ne-circle-bbox", || fmt_rect(&bb));
+                ctx.expect(
+                    pts.windows(2).all(|w| (w[0].y, w[0].x) < (w[1].y, w[1].x)),
+                    "C18:arc-points-not-row-major-once",
+                    || fmt_pts(pts.iter().copied()),
+                );
+                if a.sweep.abs() >= 360_000 {
+                    ctx.expect(pts == ring, "C18:arc-full-sweep-ne-ring", || {
+                        format!("{} arc points, {} ring points", pts.len(), ring.len())
+                    });
+                }
+                let stray = pts.iter().find(|p| !c.contains(**p)).copied();
+                ctx.expect(stray.is_none(), "C18:arc-point-outside-circle", || format!("{:?}", stray));
+                let off_ring = pts.iter().find(|p| inner.contains(**p)).copied();
+                ctx.expect(off_ring.is_none(), "C18:arc-point-inside-inner-circle", || format!("{:?}", off_ring));
+                if d <= 128 {
+                    angular_oracle(ctx, "arc", tl, d, a.start, a.sweep, ps, &ring, &pts);
+                }
+                format!("ps={} bb={} pts={}", fmt_ps(ps), fmt_rect(&bb), fmt_pts(pts))
+            }
+            other => panic!("unknown op {}", other),
+        }
     }
 }
